@@ -129,7 +129,7 @@ def sign_req(key_name, pub_key, signer) -> tuple[FormalName, VarBinaryStr]:
     start_time = datetime.now(UTC)
     end_time = start_time + timedelta(days=10)
     return new_cert(key_name, SIGN_REQ_COMPONENT, pub_key, signer,
-                    datetime.now(UTC), end_time)
+                    start_time, end_time)
 
 
 def derive_cert(key_name, issuer_id, pub_key, signer, start_time, expire_sec) -> tuple[FormalName, VarBinaryStr]:
